@@ -275,6 +275,12 @@ func (p *Payload) extractCriticalFieldsFromBytes(data []byte, traceIdFieldNames,
 
 	var keysFound int
 
+	// The trace ID is meta.trace_id when the payload has one; otherwise it is the
+	// value of the configured trace ID field that comes first in the configured
+	// list, whatever the order of the fields in the payload.
+	var fieldTraceID string
+	fieldTraceIDIdx := len(traceIdFieldNames)
+
 	// Read the map header
 	mapSize, remaining, err := msgp.ReadMapHeaderBytes(data)
 	if err != nil {
@@ -325,9 +331,13 @@ func (p *Payload) extractCriticalFieldsFromBytes(data []byte, traceIdFieldNames,
 
 		// Handle special trace ID and parent ID fields
 		if !handled && valueType == msgp.StrType {
-			_, ok := sliceContains(traceIdFieldNames, keyBytes)
-			if p.MetaTraceID == "" && ok {
-				p.MetaTraceID, remaining, err = msgp.ReadStringBytes(remaining)
+			idx, ok := sliceContains(traceIdFieldNames, keyBytes)
+			if p.MetaTraceID == "" && ok && idx < fieldTraceIDIdx {
+				var traceId string
+				traceId, remaining, err = msgp.ReadStringBytes(remaining)
+				if err == nil && traceId != "" {
+					fieldTraceID, fieldTraceIDIdx = traceId, idx
+				}
 				handled = true
 			} else if _, ok := sliceContains(parentIdFieldNames, keyBytes); ok {
 				var parentId string
@@ -372,6 +382,10 @@ func (p *Payload) extractCriticalFieldsFromBytes(data []byte, traceIdFieldNames,
 		}
 	}
 
+	if p.MetaTraceID == "" {
+		p.MetaTraceID = fieldTraceID
+	}
+
 	if keysFound < len(samplingKeyFields) {
 		// If we didn't find all key fields, add them to missingFields
 		if p.missingFields == nil {
@@ -413,6 +427,11 @@ func (p *Payload) ExtractMetadata() error {
 
 	// For memoized fields, directly access the map
 	if p.memoizedFields != nil {
+		// Map iteration order is random: remember the best trace ID field seen so
+		// far (lowest position in the configured list) and apply it afterwards,
+		// unless the payload carries meta.trace_id.
+		var fieldTraceID string
+		fieldTraceIDIdx := len(traceIdFieldNames)
 		for key, value := range p.memoizedFields {
 			// Try metadata fields first
 			handled := false
@@ -436,9 +455,9 @@ func (p *Payload) ExtractMetadata() error {
 			// If not handled as metadata, check for trace/parent ID fields
 			if !handled {
 				// Check if this is a trace ID field
-				if p.MetaTraceID == "" && slices.Contains(traceIdFieldNames, key) {
-					if v, ok := value.(string); ok && v != "" {
-						p.MetaTraceID = v
+				if idx := slices.Index(traceIdFieldNames, key); idx >= 0 {
+					if v, ok := value.(string); ok && v != "" && idx < fieldTraceIDIdx {
+						fieldTraceID, fieldTraceIDIdx = v, idx
 					}
 				} else if slices.Contains(parentIdFieldNames, key) {
 					// Check if this is a parent ID field
@@ -447,6 +466,9 @@ func (p *Payload) ExtractMetadata() error {
 					}
 				}
 			}
+		}
+		if p.MetaTraceID == "" {
+			p.MetaTraceID = fieldTraceID
 		}
 	}
 
